@@ -14,8 +14,10 @@
 EXTENDS NumTypes
 
 Digits == <<"0", "1", "2", "3", "4", "5", "6", "7", "8", "9">>
-IsDigit(c) == \E i \in 1..10 : Digits[i] = c
-DigitVal(c) == (CHOOSE i \in 1..10 : Digits[i] = c) - 1
+DigitSet == {"0", "1", "2", "3", "4", "5", "6", "7", "8", "9"}
+IsDigit(c) == c \in DigitSet
+DigitVal(c) == CASE c = "0" -> 0 [] c = "1" -> 1 [] c = "2" -> 2 [] c = "3" -> 3 [] c = "4" -> 4
+                 [] c = "5" -> 5 [] c = "6" -> 6 [] c = "7" -> 7 [] c = "8" -> 8 [] c = "9" -> 9
 
 ClassOf(ti) == [signed |-> ti.signed, fixed |-> ti.fixed]
 SignOK(cl, c) == IF cl.signed THEN c = "+" \/ c = "-" ELSE cl.fixed /\ c = "+"
@@ -50,9 +52,25 @@ FromString(ti, s) ==
        ELSE LET d == Strip(p.i \o p.f \o Zeros(ti.scale - Len(p.f))) IN
             IF InRange(ti, p.neg /\ Len(d) > 0, d) THEN Some(Val(p.neg, d)) ELSE Nil
 
-\* x.toString(): minus sign, decimal digits; fixed point: integer part, point, exactly `scale` fractional digits
+\* why a string is nil for a type (description only, used to name a disagreeing case):
+\*   "ok" | "syntax" | "scale" | "range" | "range:int-part-at-bound" | "range:int-part-at-bound,short-fraction"
+\* the last two: the integer part equals the integer part of the bound on that side, so the fraction decides
+FromStringWhy(ti, s) ==
+  IF ~Accepts(ClassOf(ti), s) THEN "syntax"
+  ELSE LET p == Parts(s) IN
+       IF ti.fixed /\ Len(p.f) > ti.scale THEN "scale"
+       ELSE LET d == Strip(p.i \o p.f \o Zeros(ti.scale - Len(p.f)))
+                neg == p.neg /\ Len(d) > 0 IN
+            IF InRange(ti, neg, d) THEN "ok"
+            ELSE IF ~ti.fixed \/ ti.bits = 0 \/ (neg /\ ~ti.signed) THEN "range"
+            ELSE LET b == IF neg THEN MinMag(ti) ELSE MaxMag(ti)
+                     bi == SubSeq(b, 1, Len(b) - ti.scale) IN
+                 IF Eq(p.i, bi) THEN (IF Len(p.f) < ti.scale THEN "range:int-part-at-bound,short-fraction" ELSE "range:int-part-at-bound")
+                 ELSE "range"
+
+\* x.toString() (NumToString): minus sign, decimal digits; fixed point: integer part, point, exactly `scale` fractional digits
 Chars(d) == [k \in 1..Len(d) |-> Digits[d[k] + 1]]
-ToString(ti, v) ==
+NumToString(ti, v) ==
   LET d == Strip(v.d)
       sign == IF v.neg /\ Len(d) > 0 THEN <<"-">> ELSE << >>
   IN IF ~ti.fixed THEN sign \o (IF Len(d) = 0 THEN <<"0">> ELSE Chars(d))
@@ -69,6 +87,12 @@ FromBigEndianBytes(ti, bs) ==
   IF Size(ti) # 0 /\ Len(bs) > Size(ti) THEN Nil                                   \* nil exactly for over-long input
   ELSE LET word == IF Size(ti) = 0 THEN bs ELSE Zeros(Size(ti) - Len(bs)) \o bs     \* the bytes given are the low-order bytes
        IN Some(IF ti.signed THEN Signed2c(word) ELSE Val(FALSE, FromBytes(word)))
+\* The property fixes the round trip and the nil rule only. For a signed sized type and an input SHORTER than the
+\* type there are two readings -- the missing high-order bytes are zero (above), or the input is a shorter two's
+\* complement number (sign taken from its own first byte). Both are allowed outcomes; they differ only when the
+\* first given byte is >= 0x80.
+FromBigEndianBytesAlt(ti, bs) ==
+  IF ti.signed /\ Size(ti) # 0 /\ Len(bs) < Size(ti) /\ Len(bs) > 0 /\ bs[1] >= 128 THEN Some(Signed2c(bs)) ELSE FromBigEndianBytes(ti, bs)
 \* x.toBigEndianBytes(): exactly Size bytes for sized types; minimal two's complement / magnitude for Int / UInt
 RECURSIVE PadTo(_, _, _)
 PadTo(bs, n, fill) == IF Len(bs) >= n THEN bs ELSE PadTo(<<fill>> \o bs, n, fill)
@@ -84,7 +108,7 @@ ToBigEndianBytes(ti, v) ==
   ELSE IF v.neg THEN Neg2c(v.d, Size(ti)) ELSE PadTo(ToBytes(v.d), Size(ti), 0)
 
 \* ------------------------------------------------------------------ laws
-StringRoundTrip(ti, v) == FromString(ti, ToString(ti, v)) = Some(v)
+StringRoundTrip(ti, v) == FromString(ti, NumToString(ti, v)) = Some(v)
 BytesRoundTrip(ti, v)  == FromBigEndianBytes(ti, ToBigEndianBytes(ti, v)) = Some(v)
 \* acceptance depends on the class only (by construction; stated so that TLC evaluates it on every enumerated string)
 WidthIndependent(s) == \A t1, t2 \in TypeNames :
